@@ -875,6 +875,67 @@ fn languages_e2e(prop: &str, idx: u64, root: &Path) -> CaseRec {
 }
 
 // ------------------------------------------------------------------------------------------------
+// 4. cli-update-untouched-e2e: documents that `update` must leave alone
+// ------------------------------------------------------------------------------------------------
+
+/// Documents with stale expectations that `scrut update --replace --assume-yes` nevertheless must not rewrite:
+/// a test case ends with the skip code (the document is skipped), the document pulls in others with `prepend` /
+/// `append` (not supported by update: skipped), a test case runs into its timeout (update gives up with an error),
+/// the document holds no test at all. In every case the file stays byte for byte what it was — no partial update —
+/// and no `.new` file appears next to it.
+fn untouched_e2e(prop: &str, idx: u64, root: &Path) -> CaseRec {
+    let kind = idx % 5;
+    let cram = (idx / 5) % 2 == 1 && kind != 2; // front-matter exists in Markdown only
+    let dir = fresh_dir(root, format!("n{idx}"));
+    let stale = |k: usize| if cram { format!("t{k}\n  $ echo real{k}\n  stale{k}\n\n") } else { format!("# t{k}\n\n```scrut\n$ echo real{k}\nstale{k}\n```\n\n") };
+    let special = |cmd: &str, cfg: &str| if cram { format!("special\n  $ {cmd}\n\n") } else { format!("# special\n\n```scrut{cfg}\n$ {cmd}\n```\n\n") };
+    let mut doc = String::new();
+    let mut want_ok = true;
+    match kind {
+        0 => doc = format!("{}{}{}", stale(0), special("exit 80", ""), stale(1)),
+        1 => doc = format!("{}{}{}", stale(0), special("(exit 80)", ""), stale(1)),
+        2 => {
+            std::fs::write(dir.join("other.md"), "# o\n\n```scrut\n$ echo other\nother\n```\n").unwrap();
+            doc = format!("---\nprepend: [other.md]\n---\n\n{}", stale(0));
+        }
+        3 => {
+            if cram {
+                // a Cram document cannot carry a per-test timeout: use the command line limit
+                doc = format!("{}{}", stale(0), special("sleep 5", ""));
+            } else {
+                doc = format!("{}{}{}", stale(0), special("sleep 5", " {timeout: 300ms}"), stale(1));
+            }
+            want_ok = false;
+        }
+        _ => doc = if cram { "Just a title\n\nand prose, no command\n".to_string() } else { "# Nothing\n\n```python\nprint(1)\n```\n".to_string() },
+    }
+    let doc_path = dir.join(if cram { "doc.t" } else { "doc.md" });
+    std::fs::write(&doc_path, &doc).unwrap();
+    let mut args = sv(&["update", "--replace", "--assume-yes"]);
+    if kind == 3 && cram {
+        args.push("--timeout-seconds".into());
+        args.push("1".into());
+    }
+    args.push(doc_path.display().to_string());
+    let ran = scrut(&dir, &dir, &args, None);
+    let after = std::fs::read_to_string(&doc_path).unwrap_or_default();
+    let mut fails = vec![];
+    let describe = |what: &str| format!("{what}; `scrut {}` on {:?} -> {:?} ({})", args.join(" "), doc, short(&after, 400), ran.show());
+    if after != doc {
+        fails.push(("C10:cli-update-rewrote-skipped-document".to_string(), describe("the document must be left as it is")));
+    }
+    let extra: Vec<String> = std::fs::read_dir(&dir).map(|r| r.filter_map(|e| e.ok()).map(|e| e.file_name().to_string_lossy().to_string()).filter(|n| n != "tmp" && n != "other.md" && *n != doc_path.file_name().unwrap().to_string_lossy()).collect()).unwrap_or_default();
+    if !extra.is_empty() {
+        fails.push(("C10:cli-update-rewrote-skipped-document".to_string(), describe(&format!("unexpected files {:?}", extra))));
+    }
+    if ran.crashed() || (ran.code == Some(0)) != want_ok {
+        fails.push(("C10:cli-update-error".to_string(), describe(&format!("exit status, expected {}", if want_ok { "0" } else { "an error" }))));
+    }
+    let _ = std::fs::remove_dir_all(&dir);
+    CaseRec { op: "noop".into(), impl_out: "ok".into(), oracle_fail: keep(prop, fails), nontrivial: true, tags: vec![format!("cli-update-untouched:kind={kind}"), format!("cli-update-untouched:cram={cram}")] }
+}
+
+// ------------------------------------------------------------------------------------------------
 
 pub fn run(ctx: &Ctx, prop: &str) {
     let seed = ctx.seed;
@@ -890,6 +951,7 @@ pub fn run(ctx: &Ctx, prop: &str) {
         let root = tmproot("languages");
         std::fs::create_dir_all(&root).unwrap();
         ctx.run_stream("cli-update-languages-e2e-exhaustive", 4 * 6 * 4, true, |idx| Some(languages_e2e(prop, idx, &root)));
+        ctx.run_stream("cli-update-untouched-e2e-exhaustive", 10, true, |idx| Some(untouched_e2e(prop, idx, &root)));
         let _ = std::fs::remove_dir_all(&root);
     }
     let root = tmproot("update");
